@@ -541,6 +541,9 @@ func cmdCheck(args []string) int {
 		level = "other"
 	}
 	expl := pc.Explanation
+	if expl == "" {
+		expl = "Obligations are generated by kbv from the SSA of the functions under contract (contracts in pkg/**/zz_contracts_verif.go) and discharged by SMT solvers; structural obligations are decided on the SSA call graph."
+	}
 	if knownHit > 0 {
 		expl += fmt.Sprintf(" %d obligation(s) fail and are recorded as known findings; they are not counted as discharged.", knownHit)
 	}
